@@ -235,6 +235,14 @@ func opTwinRun(g *G) (interface{}, []uint64, int, interface{}) {
 	stop := make(chan struct{})
 	var wg sync.WaitGroup
 	churn(priv, stop, &wg)
+	// "earlier unrelated work in the process" may have left the library's process-global logger at another level: run B
+	// under a different global log level than run A (the log sinks are silenced; the options handed in are identical)
+	prevLevel, prevDebug, prevInfo, prevWarn := neat.LogLevel, neat.DebugLog, neat.InfoLog, neat.WarnLog
+	neat.DebugLog, neat.InfoLog, neat.WarnLog = func(string) {}, func(string) {}, func(string) {}
+	neat.LogLevel = []neat.LoggerLevel{neat.LogLevelDebug, neat.LogLevelInfo, neat.LogLevelError}[priv.Intn(3)]
+	defer func() {
+		neat.LogLevel, neat.DebugLog, neat.InfoLog, neat.WarnLog = prevLevel, prevDebug, prevInfo, prevWarn
+	}()
 	b := runTwin(spec, func() {
 		churnSink = make([]byte, 1+priv.Intn(1<<16))
 		runtime.GC()
